@@ -51,6 +51,11 @@
 (*              on the raw chord angles; for furthest-edge queries         *)
 (*              infinity is the NEGATIVE chord angle, so an unlimited      *)
 (*              search never subtracts maxError from its cell bounds       *)
+(*   "descid"   (seeded change C08-seed3, not in the tree) initQueue       *)
+(*              enqueues the index cell that contains an initial cell of   *)
+(*              the search disc under the id of that (smaller) initial     *)
+(*              cell: its bound is measured against the small cell and is  *)
+(*              no lower bound for the edges of the index cell             *)
 (* With AsImplemented = {} TLC proves the invariants below on all scenes   *)
 (* within the bounds; with a tag TLC prints a counterexample behaviour.    *)
 (***************************************************************************)
@@ -71,14 +76,14 @@ CONSTANTS
     MinEnq,         \* minEdgesToEnqueue (10 in the code)
     MaxDisc,        \* at most this many cells in the covering of the search disc
     MaxSpan,        \* an edge lies in at most this many index cells
-    AsImplemented   \* subset of {"break", "dup", "capbound", "nosat", "nocons"}
+    AsImplemented   \* subset of {"break", "dup", "capbound", "nosat", "nocons", "descid"}
 
 INF == 1000
 MinOf(a, b) == IF a < b THEN a ELSE b
 None == <<>>
 
 ASSUME Faces \subseteq 1..6 /\ Fanout \in 1..4 /\ Depth \in 0..3 /\ DMax < 100
-ASSUME AsImplemented \subseteq {"break", "dup", "capbound", "nosat", "nocons"}
+ASSUME AsImplemented \subseteq {"break", "dup", "capbound", "nosat", "nocons", "descid"}
 
 (***************************************************************************)
 (* The cell tree                                                           *)
@@ -232,7 +237,9 @@ ChooseOptions ==
 EdgesOfCell(c) == {e \in Edges : c \in scene.inc[e]}
 EdgeItems(c) == [i \in 1..Cardinality(EdgesOfCell(c)) |->
                     [t |-> "e", e |-> SetToSortSeq(EdgesOfCell(c), <)[i]]]
-CellItem(id) == [t |-> "c", id |-> id, idx |-> id \in scene.cells]
+\* loose: the bound is measured against some smaller cell (tag "descid"): any value from the
+\* true bound upwards
+CellItem(id) == [t |-> "c", id |-> id, idx |-> id \in scene.cells, loose |-> FALSE]
 HasIndexCells(id) == \E c \in scene.cells : IsPrefix(id, c)
 
 \* the value a target may report for a true distance x that is below the limit lim
@@ -315,8 +322,9 @@ DoCell ==
            THEN \* few edges: test them right away
                 work' = EdgeItems(it.id) \o Tail(work) /\ UNCHANGED queue
            ELSE /\ work' = Tail(work)
-                /\ IF scene.lb[it.id] < limit       \* updateDistanceToCell(cell, distanceLimit)
-                   THEN \E cm \in Measured(scene.lb[it.id], limit, flags.useME) :
+                /\ \E bound \in (IF it.loose THEN scene.lb[it.id]..(DMax + 1) ELSE {scene.lb[it.id]}) :
+                   IF bound < limit       \* updateDistanceToCell(cell, distanceLimit)
+                   THEN \E cm \in Measured(bound, limit, flags.useME) :
                           queue' = Append(queue, [d |-> IF flags.cons THEN cm - opts.err ELSE cm,
                                                   id |-> it.id, idx |-> it.idx])
                    ELSE UNCHANGED queue
@@ -364,9 +372,10 @@ InitialItems(ini, i, cov, j) ==
                       nxt == CHOOSE k \in (i+1)..(Len(ini)+1) :
                                  /\ \A m \in (i+1)..(k-1) : IsPrefix(ic, ini[m])
                                  /\ (k <= Len(ini) => ~IsPrefix(ic, ini[k]))
-                  IN  <<[t |-> "c", id |-> ic, idx |-> TRUE]>> \o InitialItems(ini, nxt, cov, j)
+                  IN  <<[t |-> "c", id |-> ic, idx |-> TRUE,
+                         loose |-> "descid" \in AsImplemented /\ ic # ini[i]]>> \o InitialItems(ini, nxt, cov, j)
              ELSE IF HasIndexCells(ini[i])                            \* Subdivided
-             THEN <<[t |-> "c", id |-> ini[i], idx |-> FALSE]>> \o InitialItems(ini, i + 1, cov, j)
+             THEN <<[t |-> "c", id |-> ini[i], idx |-> FALSE, loose |-> FALSE]>> \o InitialItems(ini, i + 1, cov, j)
              ELSE InitialItems(ini, i + 1, cov, j)                     \* Disjoint
 
 DiscCandidates == {x \in AllCells : \E c \in scene.cells : Related(x, c)}
